@@ -67,6 +67,30 @@ let handle line =
                                         | C.Inr (C.DuplicateModule (m, p, f)) -> "DUP:" ^ string_of_mod m ^ ":" ^ string_of_rpath p ^ ":" ^ string_of_rpath f
                                         | C.Inr _ -> "?"))
        | "inv" :: fs -> String.concat "" (List.map (fun f -> if C.inverse_ok o t (rpath_of_string f) then "1" else "0") fs)
+       | "dep" :: rest ->
+           (* dep m1,m2,... args... : seed the graph with the sources of args, then add the dependencies in order,
+              each located by find_module on the derived search paths (load_graph's same-file check) *)
+           (match rest with
+            | deps :: args ->
+                (match C.create_source_list o t (List.map rpath_of_string args) with
+                 | C.Err e -> "ERR:" ^ err_s e
+                 | C.Ok l ->
+                     (match C.load_roots l [] with
+                      | C.Inr _ -> "duplicate"
+                      | C.Inl g0 ->
+                          let sp = C.search_paths o l in
+                          let rec go g = function
+                            | [] -> "ok"
+                            | d :: ds ->
+                                let dm = mod_of_string d in
+                                (match C.find_module o t sp dm with
+                                 | C.NotFound -> go g ds
+                                 | C.Found p ->
+                                     (match C.add_dependency g dm p with
+                                      | C.Inl g' -> go g' ds
+                                      | C.Inr _ -> "found-twice"))
+                          in go g0 (String.split_on_char ',' deps)))
+            | [] -> "!BADCMD")
        | "noshadow" :: [] -> if C.no_shadow t && C.wf_node (C.Dir t) then "1" else "0"
        | "valid" :: [] -> if C.valid_names t && C.wf_node (C.Dir t) then "1" else "0"
        | _ -> "!BADCMD")
